@@ -143,7 +143,7 @@ fn report_project_condition(rep: &mut Report, model: &Model, reqs: &[String], wh
             Some(m) => {
                 let deps = if m.get("deps").map(|x| x == "true").unwrap_or(false) { "with-dependencies" } else { "no-dependencies" };
                 rep.count(&format!("whole-project-theorem:{which}={}|{deps}", m[which]));
-                let concl = if which == "needed" { "nconcl" } else { "tconcl" };
+                let concl = match which { "needed" => "nconcl", "twice" => "tconcl", _ => "vconcl" };
                 if m.get(concl).map(|x| x != "true").unwrap_or(true) {
                     let what = format!("model self-check: the conclusion of the whole-project theorem ({which}) does not hold in the executable model although its side condition does: {r}");
                     rep.violation("model", &what, &format!("# {what}\n# request to the model driver:\n{q}\n"));
@@ -206,9 +206,11 @@ pub fn run_c06(args: &Args) -> Report {
     rep.rule = "generated 1-3-file projects (with dependencies between sources), built, then verified: untampered (must pass), and after each single-point tampering of each output incl. outputs of dependencies (flip first/middle/last byte, append, prepend, delete a byte, truncate by one / to a random prefix / to empty, insert a newline, append CRLF, delete the file), with the trailing-newline option flipped, and after a source edit. Oracles: verify ok <=> every output byte-equal to a fresh build of the same tree with the same options; verify never changes (inode, mtime, bytes) of any output; every run also compared with the model. distinct_nontrivial = distinct (tamper kind, position: requested file / dependency, verdict) combinations x project signatures.".to_string();
     let mut runner = Runner::new(args, "c06");
     let mut safe_reqs: Vec<String> = vec![];
+    let mut proj_reqs: Vec<String> = vec![];
     for i in 0..n {
         let Some((p, t0, tref, cfg)) = fresh_project(&mut rng, &mut runner, true) else { continue };
         safe_reqs.push(encode_safe_request(&t0, "build", &p.cmds, &runner.base_abs));
+        proj_reqs.push(encode_projsafe_request(&tref, &cfg, &p.cmds, &runner.base_abs));
         let outputs: Vec<String> = p.sources.iter().map(|s| output_name(s)).filter(|o| tref.files.contains_key(o)).collect();
         let mut vcfg = cfg.clone();
         vcfg.mode = "verify";
@@ -368,6 +370,7 @@ pub fn run_c06(args: &Args) -> Report {
         big.cleanup();
     }
     report_side_condition(&mut rep, &model, &safe_reqs);
+    report_project_condition(&mut rep, &model, &proj_reqs, "verify");
     compare_all(&mut rep, &runner, &model, "C06", "C06.stream_compare_iff, verify_ok_iff_uptodate, verify_open_readonly, verify_untouched");
     runner.cleanup();
     rep
